@@ -117,7 +117,7 @@ func tobjTerm(obj types.Object) string {
 	}
 	switch o := obj.(type) {
 	case *types.PkgName:
-		return "(Some (TPkgName " + coqStr(o.Imported().Path()) + "))"
+		return "(Some (TPkgName " + coqStr(o.Imported().Path()) + " " + pkg + "))"
 	case *types.Var:
 		return fmt.Sprintf("(Some (TVar %v %s))", o.IsField(), pkg)
 	}
